@@ -36,12 +36,13 @@ type entry struct {
 	method string
 	params *J // nil = absent
 	// expectations for valid requests
-	known    bool        // method is registered
-	ms       *MethodSpec // if known
-	bind     int         // bindOK, bindNo, bindUnknown
-	args     []*J        // if bindOK
-	matched  bool
-	src      *J
+	known     bool        // method is registered
+	ms        *MethodSpec // if known
+	bind      int         // bindOK, bindNo, bindUnknown
+	args      []*J        // if bindOK
+	matched   bool
+	diagnosed bool // its (wrong) answer has been reported; do not also report the consequences for the invocation log
+	src       *J
 }
 
 const (
@@ -218,41 +219,44 @@ func fit(ty string, v *J) (*J, int) {
 	case "bounds":
 		switch v.K {
 		case '{':
-			var ma, ver *J
+			fields := map[string]*J{}
 			for _, m := range v.O {
 				switch m.K {
-				case "max_amount":
-					if ma != nil {
+				case "max_amount", "max_price_per_unit", "version":
+					if fields[m.K] != nil {
 						return nil, bindUnknown
 					}
-					ma = m.V
-				case "version":
-					if ver != nil {
-						return nil, bindUnknown
-					}
-					ver = m.V
+					fields[m.K] = m.V
 				default:
 					return nil, bindUnknown
 				}
 			}
-			if ma == nil || ver == nil {
-				return nil, bindNo // both are required
+			if len(fields) != 3 {
+				return nil, bindNo // all three are required
 			}
-			man, s1 := canonicalFelt(ma)
-			vern, s2 := canonicalFelt(ver)
-			if s1 == bindNo || s2 == bindNo {
-				return nil, bindNo
+			var ns [3]*big.Int
+			unknown := false
+			for i, k := range []string{"max_amount", "max_price_per_unit", "version"} {
+				n, st := canonicalFelt(fields[k])
+				if st == bindNo {
+					return nil, bindNo
+				}
+				if st == bindUnknown {
+					unknown = true
+				}
+				ns[i] = n
 			}
-			if s1 == bindUnknown || s2 == bindUnknown {
+			if unknown {
 				return nil, bindUnknown
 			}
 			q := new(big.Int).Lsh(big.NewInt(1), 128)
 			q.Add(q, big.NewInt(3))
-			verOK := vern.Cmp(big.NewInt(3)) == 0 || vern.Cmp(q) == 0
-			if man.BitLen() > 64 || !verOK {
+			verOK := ns[2].Cmp(big.NewInt(3)) == 0 || ns[2].Cmp(q) == 0
+			if ns[0].BitLen() > 64 || ns[1].BitLen() > 128 || !verOK {
 				return nil, bindNo
 			}
-			return jObj(kv("max_amount", jStr("0x"+man.Text(16))), kv("version", jStr("0x"+vern.Text(16)))), bindOK
+			return jObj(kv("max_amount", jStr("0x"+ns[0].Text(16))), kv("max_price_per_unit", jStr("0x"+ns[1].Text(16))),
+				kv("version", jStr("0x"+ns[2].Text(16)))), bindOK
 		case 'n':
 			return nil, bindUnknown
 		}
@@ -295,7 +299,7 @@ func zeroOf(ty string) *J {
 	case "vstruct":
 		return jObj(kv("A", jNum("0")))
 	case "bounds":
-		return jObj(kv("max_amount", jNull()), kv("version", jNull()))
+		return jObj(kv("max_amount", jNull()), kv("max_price_per_unit", jNull()), kv("version", jNull()))
 	}
 	return jNull()
 }
@@ -690,6 +694,7 @@ type Obs struct {
 	Panicked bool
 	PanicMsg string
 	Hung     bool
+	Dropped  string // a transport connection was closed / reset by the server instead of an answer
 	Calls    []Call
 	RecErrs  []string
 }
@@ -709,6 +714,10 @@ func judge(w *World, input []byte, o Obs) []Verdict {
 	}
 	if o.Panicked {
 		add("server-panics", "the server panicked: %s", o.PanicMsg)
+		return vs
+	}
+	if o.Dropped != "" {
+		add("connection-dropped-instead-of-answer", "%s", o.Dropped)
 		return vs
 	}
 	if o.Hung {
@@ -904,19 +913,99 @@ func judge(w *World, input []byte, o Obs) []Verdict {
 			}
 		}
 	}
-	for i, ri := range infos {
-		k := entryOf[i]
-		if k == -1 {
-			if !ri.hasResult && !ri.hasError {
-				add("response-has-neither-result-nor-error", "response %s has neither result nor error", ri.src.String())
-			} else {
-				add("response-matches-no-request", "response %s is not the answer to any request of the input (wrong id, wrong error code, wrong result, or a duplicate)", ri.src.String())
+	for i := range infos {
+		if k := entryOf[i]; k != -1 {
+			entries[k].matched = true
+			if v := edges[i][k].v; v != nil {
+				vs = append(vs, *v)
 			}
+		}
+	}
+	// Left-over responses: name the cause. A response that carries the id of a request still
+	// waiting for its answer is that request answered wrongly (not "a lost request" plus "a stray
+	// response").
+	for i, ri := range infos {
+		if entryOf[i] != -1 {
 			continue
 		}
-		entries[k].matched = true
-		if v := edges[i][k].v; v != nil {
-			vs = append(vs, *v)
+		if !ri.hasResult && !ri.hasError {
+			add("response-has-neither-result-nor-error", "response %s has neither result nor error", ri.src.String())
+			continue
+		}
+		var partner *entry
+		for _, e := range entries {
+			if e.matched {
+				continue
+			}
+			switch e.kind {
+			case ekCall:
+				if sameID(e.id, ri.id) {
+					partner = e
+				}
+			case ekNullID, ekInvalid:
+				if ri.id.K == 'n' || sameJSON(e.src.get("id"), ri.id) {
+					partner = e
+				}
+			}
+			if partner != nil {
+				break
+			}
+		}
+		if partner == nil {
+			for _, e := range entries {
+				if !e.matched && e.kind == ekNotif && ri.id.K == 'n' {
+					partner = e
+					break
+				}
+			}
+		}
+		if partner == nil && !batch && len(entries) == 1 && !entries[0].matched && entries[0].kind != ekFuzzy {
+			// a single request has a single possible addressee
+			partner = entries[0]
+			if partner.kind == ekCall && !(ri.hasError && ri.id.K == 'n') {
+				partner.matched, partner.diagnosed = true, true
+				add("response-carries-wrong-id", "request %s is answered with %s", partner.src.String(), ri.src.String())
+				continue
+			}
+		}
+		if partner == nil {
+			add("response-matches-no-request", "response %s carries an id that no unanswered request of the input has (wrong id, or a duplicate)", ri.src.String())
+			continue
+		}
+		partner.matched, partner.diagnosed = true, true
+		got := "result " + ri.result.String()
+		if ri.hasError {
+			got = "error " + ri.code
+		}
+		switch partner.kind {
+		case ekNotif:
+			add("notification-answered", "the notification %s is answered with %s", partner.src.String(), ri.src.String())
+		case ekInvalid:
+			if ri.hasError {
+				add("invalid-request-answered-with-wrong-error-code", "invalid request %s: expected -32600, got %s", partner.src.String(), got)
+			} else {
+				add("invalid-request-answered-with-result", "invalid request %s is answered with %s", partner.src.String(), got)
+			}
+		default:
+			want := ""
+			switch {
+			case !partner.known:
+				want = "error -32601"
+			case partner.bind == bindNo:
+				want = "error -32602"
+			case partner.bind == bindOK:
+				want = "the outcome of " + (&Call{Method: partner.method, Args: partner.args}).String() + " (handler behaviour " + partner.ms.Beh + ")"
+			}
+			switch {
+			case strings.HasPrefix(want, "error") && ri.hasError:
+				add("request-answered-with-wrong-error-code", "request %s: expected %s, got %s", partner.src.String(), want, got)
+			case strings.HasPrefix(want, "error"):
+				add("failing-request-answered-with-result", "request %s: expected %s, got %s", partner.src.String(), want, got)
+			case ri.hasError && (ri.code == "-32602" || ri.code == "-32601" || ri.code == "-32600" || ri.code == "-32700"):
+				add("valid-request-rejected", "request %s: expected %s, got %s", partner.src.String(), want, ri.src.String())
+			default:
+				add("request-answered-with-wrong-outcome", "request %s: expected %s, got %s", partner.src.String(), want, ri.src.String())
+			}
 		}
 	}
 	for _, e := range entries {
@@ -930,6 +1019,9 @@ func judge(w *World, input []byte, o Obs) []Verdict {
 	unknownCalls := 0
 	for _, e := range entries {
 		c, unk := e.expectedCall()
+		if e.diagnosed {
+			c, unk = nil, true
+		}
 		if unk {
 			unknownCalls++
 		} else if c != nil {
